@@ -187,7 +187,9 @@ def check(run, repo, world):
     # the allowed set
     folder = Folder(world)
     allowed = None
-    for n in cfg.reachable:
+    sem = _writability_by_member(world, folder, wloops[0]) \
+        if len(wloops) == 1 else None
+    for n in (cfg.reachable if sem is None else ()):
         if n.kind == "test" and isinstance(n.ast, ast.Compare) and unparse(
                 n.ast.left) == "location.type_" and isinstance(
                     n.ast.ops[0], (ast.NotIn, ast.In)):
@@ -203,9 +205,7 @@ def check(run, repo, world):
                 run.ob("R-MEMW-PRE", Q + "#not-writeable-raises", ok,
                        "a location outside the writable types must raise "
                        "MemoryValueNotWriteable", where(mod, n))
-    sem = _writability_by_member(world, folder, wloops[0]) \
-        if len(wloops) == 1 else None
-    if allowed is None and sem is not None:
+    if sem is not None:
         # not the membership-test form: decided per member of MemoryType by
         # evaluating the loop body's path conditions (a lookup table, an
         # if-chain, ... give the same answer)
